@@ -24,6 +24,16 @@ Definition SW (l : list ev) (eff : list (string * list gv)) (st : list (string *
   {| w_stream := l; w_eff := eff; w_store := st |}.
 Definition has_buf (st : list (string * gv)) (b : bytes) : Prop := assoc_s "self._buffer" st = Some (gbytes b).
 
+(* what _recv / read leave alone in the store: every variable but their own *)
+Definition frame (st' st : list (string * gv)) : Prop :=
+  forall k, String.eqb k "self._buffer" = false -> String.eqb k "_recv.data" = false -> String.eqb k "read.data" = false ->
+            assoc_s k st' = assoc_s k st.
+Lemma frame_refl st : frame st st.  Proof. intros k _ _ _. reflexivity. Qed.
+Lemma frame_trans a b c : frame a b -> frame b c -> frame a c.
+Proof. intros H1 H2 k A B C. now rewrite (H1 k A B C), (H2 k A B C). Qed.
+Ltac frame_tac := let k := fresh "k" in let A := fresh in let B := fresh in let C := fresh in
+  intros k A B C; cbn [assoc_s]; rewrite ?A, ?B, ?C; reflexivity.
+
 Ltac io := cbv beta iota zeta delta [fn_result seqIO bindIO retIO raiseIO liftR io_recv io_set io_get g_catchIO
                                       w_stream w_eff w_store existsb exn_eqb rcv].
 Ltac look := cbn [assoc_s String.eqb Ascii.eqb Bool.eqb].
@@ -33,12 +43,12 @@ Ltac go := repeat (progress (io; look; unfold gint; cbn [g_len g_add g_eq pv_eq 
 Lemma recv_io l eff st b : has_buf st b ->
   exists st', py_sock_recv rcv attr (SW l eff st) =
               (Ok (gbool (fst (recv {| buf := b; evs := l |}))), SW (evs (snd (recv {| buf := b; evs := l |}))) eff st')
-              /\ has_buf st' (buf (snd (recv {| buf := b; evs := l |}))).
+              /\ has_buf st' (buf (snd (recv {| buf := b; evs := l |}))) /\ frame st' st.
 Proof.
   intros Hb. first [pose proof T_recv as Hin; untranslated Hin | idtac].
   all: unfold py_sock_recv, SW, has_buf in *. all: rewrite attr_bufsize. all: unfold recv; cbn [evs buf].
   all: destruct l as [|[[|x d]|] t]; go; rewrite ?Hb; go.
-  all: eexists; split; [reflexivity|]; cbn [fst snd buf]; look; first [exact Hb | reflexivity].
+  all: eexists; split; [reflexivity|]; split; [cbn [fst snd buf]; look; first [exact Hb | reflexivity] | frame_tac].
 Qed.
 
 (* ---- read(num) ---- *)
@@ -103,36 +113,36 @@ Lemma body_io (n : nat) l eff st b : has_buf st b ->
   exists st', py_body (gint (Z.of_nat n)) (SW l eff st) =
               (Ok (if fst (recv {| buf := b; evs := l |}) then CNormal else CRet (gbytes [])),
                SW (evs (snd (recv {| buf := b; evs := l |}))) eff st')
-              /\ has_buf st' (buf (snd (recv {| buf := b; evs := l |}))).
+              /\ has_buf st' (buf (snd (recv {| buf := b; evs := l |}))) /\ frame st' st.
 Proof.
   intros Hb. first [pose proof T_read as Hin; untranslated Hin | idtac].
-  all: destruct (recv_io l eff st b Hb) as (st1 & Hr & Hb1).
+  all: destruct (recv_io l eff st b Hb) as (st1 & Hr & Hb1 & Hfr).
   all: unfold py_sockread_body1; unfold bindIO at 1 2 3; rewrite Hr.
   all: destruct (fst (recv {| buf := b; evs := l |})); cbn [g_truth gbool Z.eqb negb retIO].
-  all: exists st1; split; [reflexivity|exact Hb1].
+  all: exists st1; split; [reflexivity|split; [exact Hb1|exact Hfr]].
 Qed.
 
 Lemma loop_io (n : nat) : forall l b eff st fuel, has_buf st b -> (length l < fuel)%nat ->
   exists st', g_while fuel (py_test (gint (Z.of_nat n))) (py_body (gint (Z.of_nat n))) (SW l eff st) =
               (let '(ok, b', l') := loop_spec n b l in
                (Ok (if ok then CNormal else CRet (gbytes [])), SW l' eff st'))
-              /\ has_buf st' (snd (fst (loop_spec n b l))).
+              /\ has_buf st' (snd (fst (loop_spec n b l))) /\ frame st' st.
 Proof.
   induction l as [|e t IH]; intros b eff st fuel Hb Hf.
   - destruct fuel as [|f]; [cbn [length] in Hf; lia|].
     rewrite g_while_S, (test_io n [] eff st b Hb). cbn [loop_spec].
-    destruct (Nat.leb n (length b)); cbn [negb fst snd]; [exists st; split; [reflexivity|exact Hb]|].
-    destruct (body_io n [] eff st b Hb) as (st1 & Hr & Hb1). rewrite Hr. cbn [recv evs buf fst snd] in *.
-    exists st1. split; [reflexivity|exact Hb1].
+    destruct (Nat.leb n (length b)); cbn [negb fst snd]; [exists st; split; [reflexivity|split; [exact Hb|apply frame_refl]]|].
+    destruct (body_io n [] eff st b Hb) as (st1 & Hr & Hb1 & Hfr). rewrite Hr. cbn [recv evs buf fst snd] in *.
+    exists st1. split; [reflexivity|split; [exact Hb1|exact Hfr]].
   - destruct fuel as [|f]; [cbn [length] in Hf; lia|].
     rewrite g_while_S, (test_io n (e :: t) eff st b Hb). cbn [loop_spec].
-    destruct (Nat.leb n (length b)); cbn [negb fst snd]; [exists st; split; [reflexivity|exact Hb]|].
-    destruct (body_io n (e :: t) eff st b Hb) as (st1 & Hr & Hb1). rewrite Hr. clear Hr.
+    destruct (Nat.leb n (length b)); cbn [negb fst snd]; [exists st; split; [reflexivity|split; [exact Hb|apply frame_refl]]|].
+    destruct (body_io n (e :: t) eff st b Hb) as (st1 & Hr & Hb1 & Hfr). rewrite Hr. clear Hr.
     destruct e as [[|x d]|]; cbn [recv evs buf fst snd] in *.
-    + exists st1. split; [reflexivity|exact Hb1].
-    + cbn [length] in Hf. destruct (IH (b ++ x :: d)%list eff st1 f Hb1 ltac:(lia)) as (st2 & Hw & Hb2).
-      rewrite Hw. exists st2. split; [reflexivity|exact Hb2].
-    + exists st1. split; [reflexivity|exact Hb1].
+    + exists st1. split; [reflexivity|split; [exact Hb1|exact Hfr]].
+    + cbn [length] in Hf. destruct (IH (b ++ x :: d)%list eff st1 f Hb1 ltac:(lia)) as (st2 & Hw & Hb2 & Hfr2).
+      rewrite Hw. exists st2. split; [reflexivity|split; [exact Hb2|exact (frame_trans _ _ _ Hfr2 Hfr)]].
+    + exists st1. split; [reflexivity|split; [exact Hb1|exact Hfr]].
 Qed.
 
 (* read(num): for every sequence of recv() results and every buffer, the source's read() returns what the model's
@@ -140,16 +150,128 @@ Qed.
 Theorem read_io (n : nat) l b eff st fuel : has_buf st b -> (length l < fuel)%nat ->
   exists st', py_sockread rcv attr fuel (gint (Z.of_nat n)) (SW l eff st) =
               (Ok (gbytes (fst (sock_read_aux n b l))), SW (evs (snd (sock_read_aux n b l))) eff st')
-              /\ has_buf st' (buf (snd (sock_read_aux n b l))).
+              /\ has_buf st' (buf (snd (sock_read_aux n b l))) /\ frame st' st.
 Proof.
   intros Hb Hf. first [pose proof T_read as Hin; untranslated Hin | idtac].
-  all: destruct (loop_io n l b eff st fuel Hb Hf) as (st1 & Hw & Hb1).
+  all: destruct (loop_io n l b eff st fuel Hb Hf) as (st1 & Hw & Hb1 & Hfr).
   all: rewrite sock_read_aux_spec. all: unfold py_sockread, fn_result, seqIO. all: unfold bindIO at 1 2. all: rewrite Hw. all: clear Hw.
   all: destruct (loop_spec n b l) as [[ok b'] l']; cbn [fst snd] in *.
-  all: destruct ok; cbn [fst snd buf evs retIO]; [|exists st1; split; [reflexivity|exact Hb1]].
+  all: destruct ok; cbn [fst snd buf evs retIO]; [|exists st1; split; [reflexivity|split; [exact Hb1|exact Hfr]]].
   all: unfold SW, has_buf in *.
   all: repeat (progress (io; look; rewrite ?Hb1; unfold gint; cbn [g_slice slice_of gbytes gnone bind g_bytes_conv])).
   all: change 0 with (Z.of_nat 0); rewrite ?pyslice_nat, ?pyslice_from_nat; cbn [skipn Nat.sub]; rewrite ?Nat.sub_0_r.
-  all: eexists; split; [reflexivity|]; look; reflexivity.
+  all: eexists; split; [reflexivity|]; split; [look; reflexivity|].
+  all: eapply frame_trans; [|exact Hfr]; frame_tac.
+Qed.
+
+(* ---- readline() ---- *)
+Hypothesis T_readline : mem_s "py_sockreadline" translated_io = true.
+Definition has_line (st : list (string * gv)) (ln : bytes) : Prop := assoc_s "readline.line" st = Some (gbytes ln).
+
+Notation rl_test := (@py_sockreadline_test1 (list ev)).
+Notation rl_body := (@py_sockreadline_body1 (list ev) rcv attr).
+
+(* read(1) returns at most one byte *)
+Lemma read1_shape b l : fst (sock_read_aux 1 b l) = [] \/ exists x, fst (sock_read_aux 1 b l) = [x].
+Proof.
+  rewrite sock_read_aux_spec. destruct (loop_spec 1 b l) as [[ok b'] l']. destruct ok; [|now left].
+  cbn [fst]. destruct b' as [|x b']; [now left|right; now exists x].
+Qed.
+
+Lemma last1 (ln : bytes) (x : N) : pyslice_from (ln ++ [x])%list (-1) = [x].
+Proof.
+  change (-1) with (- Z.of_nat 1). rewrite pyslice_from_last by lia. rewrite app_length. cbn [length].
+  destruct (Nat.leb_spec (length ln + 1) 1) as [H|H].
+  - destruct ln; [reflexivity|cbn [length] in H; lia].
+  - replace (length ln + 1 - 1)%nat with (length ln) by lia. rewrite skipn_app, skipn_all, Nat.sub_diag. reflexivity.
+Qed.
+
+(* one pass through the loop body: read(1); a byte is appended and ends the line when it is LF, nothing ends it too *)
+Lemma rl_body_io fuel l b ln eff st : has_buf st b -> has_line st ln -> (length l < fuel)%nat ->
+  exists st',
+    rl_body fuel (SW l eff st) =
+    (Ok (match fst (sock_read_aux 1 b l) with [x] => if (x =? 10)%N then CBreak else CNormal | _ => CBreak end),
+     SW (evs (snd (sock_read_aux 1 b l))) eff st')
+    /\ has_buf st' (buf (snd (sock_read_aux 1 b l)))
+    /\ has_line st' (match fst (sock_read_aux 1 b l) with [x] => (ln ++ [x])%list | _ => ln end).
+Proof.
+  intros Hb Hl Hf. first [pose proof T_readline as Hin; untranslated Hin | idtac].
+  all: destruct (read_io 1 l b eff st fuel Hb Hf) as (st1 & Hr & Hb1 & Hfr).
+  all: assert (Hl1 : assoc_s "readline.line" st1 = Some (gbytes ln)) by (rewrite (Hfr "readline.line"%string) by reflexivity; exact Hl).
+  all: assert (Hb1' : assoc_s "self._buffer" st1 = Some (gbytes (buf (snd (sock_read_aux 1 b l))))) by exact Hb1.
+  all: unfold py_sockreadline_body1, seqIO. all: unfold bindIO at 1 2. all: change (gint 1) with (gint (Z.of_nat 1)). all: rewrite Hr.
+  all: unfold SW, has_buf, has_line in *.
+  all: destruct (read1_shape b l) as [E|[x E]]; rewrite E.
+  all: repeat (progress (io; look; rewrite ?Hl1, ?Hb1'; unfold gint;
+                          cbn [g_len g_add g_eq pv_eq gbytes length Z.of_nat Pos.of_succ_nat Z.eqb Pos.eqb bind g_slice slice_of gnone])).
+  all: rewrite ?last1; cbn [beq andb].
+  all: try (rewrite andb_true_r; destruct (x =? 10)%N).
+  all: eexists; split; [reflexivity|]; split; look; first [exact Hb1' | exact Hl1 | reflexivity].
+Qed.
+
+(* the model's readline loop, with running out of iterations made visible *)
+Fixpoint rl_opt (f : nat) (line : bytes) (s : sock) : option (bytes * sock) :=
+  match f with
+  | O => None
+  | Datatypes.S f' =>
+    let '(d, s') := sock_read 1 s in
+    match d with
+    | [x] => if (x =? 10)%N then Some ((line ++ [x])%list, s') else rl_opt f' (line ++ [x])%list s'
+    | _ => Some (line, s')
+    end
+  end.
+
+Lemma rl_opt_aux f : forall line s r, rl_opt f line s = Some r -> sock_readline_aux f line s = r.
+Proof.
+  induction f as [|f IH]; intros line s r H; cbn [rl_opt sock_readline_aux] in *; [discriminate|].
+  destruct (sock_read 1 s) as [d s']. destruct d as [|x [|y d]]; try (injection H as <-; reflexivity).
+  destruct (x =? 10)%N; [injection H as <-; reflexivity|]. now apply IH.
+Qed.
+
+Lemma events_shrink n b l : (length (evs (snd (sock_read_aux n b l))) <= length l)%nat.
+Proof.
+  rewrite sock_read_aux_spec. revert b. induction l as [|e t IH]; intros b; cbn [loop_spec].
+  - destruct (Nat.leb n (length b)); cbn; lia.
+  - destruct (Nat.leb n (length b)); [cbn; lia|]. destruct e as [[|x d]|]; try (cbn; lia).
+    specialize (IH (b ++ x :: d)%list). destruct (loop_spec n (b ++ x :: d)%list t) as [[ok b'] l']. destruct ok; cbn in *; lia.
+Qed.
+
+Lemma rl_test_io (w : world (list ev)) : rl_test w = (Ok true, w).
+Proof. first [pose proof T_readline as Hin; untranslated Hin | idtac]. all: reflexivity. Qed.
+
+Lemma rl_loop Fi eff : forall f k b l ln st r, has_buf st b -> has_line st ln -> (length l < Fi)%nat -> (f <= k)%nat ->
+  rl_opt f ln {| buf := b; evs := l |} = Some r ->
+  exists st', g_while k rl_test (rl_body Fi) (SW l eff st) = (Ok CNormal, SW (evs (snd r)) eff st')
+              /\ has_buf st' (buf (snd r)) /\ has_line st' (fst r).
+Proof.
+  induction f as [|f IH]; intros k b l ln st r Hb Hl Hf Hk H; cbn [rl_opt] in H; [discriminate|].
+  destruct k as [|k]; [lia|]. rewrite g_while_S, rl_test_io.
+  destruct (rl_body_io Fi l b ln eff st Hb Hl Hf) as (st1 & Hr & Hb1 & Hl1). rewrite Hr. clear Hr.
+  unfold sock_read in H. cbn [buf evs] in H.
+  destruct (sock_read_aux 1 b l) as [d s'] eqn:E. cbn [fst snd] in *.
+  destruct d as [|x [|y d]].
+  - injection H as <-. exists st1. cbn [fst snd]. split; [reflexivity|split; assumption].
+  - destruct (x =? 10)%N.
+    + injection H as <-. exists st1. cbn [fst snd]. split; [reflexivity|split; assumption].
+    + destruct s' as [b' l']. cbn [buf evs] in *.
+      assert (Hf' : (length l' < Fi)%nat).
+      { pose proof (events_shrink 1 b l) as Hs. rewrite E in Hs. cbn [snd evs] in Hs. lia. }
+      apply (IH k b' l' (ln ++ [x])%list st1 r Hb1 Hl1 Hf' ltac:(lia) H).
+  - injection H as <-. exists st1. cbn [fst snd]. split; [reflexivity|split; assumption].
+Qed.
+
+(* readline(): for every sequence of recv() results and every buffer, the source's readline() returns the line the model's
+   loop returns, consumes the same recv() results and leaves the same buffer (whenever the model's loop ends within `fuel`
+   rounds; Socket_lemmas shows it does for fuel = 1 + the number of bytes the socket will ever deliver) *)
+Theorem readline_io fuel l b eff st r : has_buf st b -> (length l < fuel)%nat ->
+  rl_opt fuel [] {| buf := b; evs := l |} = Some r ->
+  exists st', py_sockreadline rcv attr fuel (SW l eff st) = (Ok (gbytes (fst r)), SW (evs (snd r)) eff st')
+              /\ has_buf st' (buf (snd r)).
+Proof.
+  intros Hb Hf H. first [pose proof T_readline as Hin; untranslated Hin | idtac].
+  all: unfold py_sockreadline, fn_result, seqIO. all: unfold bindIO at 1 2 3 4. all: unfold SW at 1; cbv beta iota zeta delta [retIO io_set w_stream w_eff w_store].
+  all: destruct (rl_loop fuel eff fuel fuel b l [] (("readline.line", gbytes []) :: st) r) as (st1 & Hw & Hb1 & Hl1);
+       [unfold has_buf in *; look; exact Hb | reflexivity | exact Hf | lia | exact H | ].
+  all: unfold SW in Hw. all: rewrite Hw. all: unfold SW, has_line in *; io; look; rewrite Hl1. all: exists st1; split; [reflexivity|exact Hb1].
 Qed.
 End SK.
